@@ -153,6 +153,22 @@ func paramClasses() []string {
 	return cls
 }
 
+// methodParamClasses: the parameters of a method are the one place where the
+// generators do clean names up (signature.CleanVarName: the Go keywords, string
+// and error get a suffix), so those names are drawn there whatever is listed
+// for the other positions.
+func methodParamClasses() []string {
+	cls := paramClasses()
+	if vt.Known("C05:identifier-hygiene:param") {
+		cls = append(cls, "cleaned")
+	}
+	return cls
+}
+
+// (of the names CleanVarName knows, the Go keywords still reach other emission
+// sites verbatim - the listed finding - ; error shadows the result type of every generated method; string alone is safe)
+var cleanedNames = []string{"string"}
+
 func actionClasses() []string {
 	cls := []string{"plain", "plain", "plain", "plain"}
 	if !vt.Known("C05:identifier-hygiene:action") {
@@ -170,6 +186,8 @@ func (g *nameGen) draw(t *rapid.T, label string, classes []string, labels map[st
 		switch cls {
 		case "keyword":
 			n = rapid.SampledFrom(goKeywords).Draw(t, label)
+		case "cleaned":
+			n = rapid.SampledFrom(cleanedNames).Draw(t, label)
 		case "predeclared":
 			n = rapid.SampledFrom(predeclared).Draw(t, label)
 		case "generator":
@@ -262,7 +280,16 @@ func genCase(t *rapid.T) Case {
 			pg := &nameGen{used: map[string]bool{}}
 			np := rapid.IntRange(0, 4).Draw(t, "nparams")
 			for k := 0; k < np; k++ {
-				a.Params = append(a.Params, Param{Name: pg.draw(t, "param", paramClasses(), labels), Type: actionType("param", "")})
+				// (the clean-up does not reach object-typed parameters: those keep
+				// the classes of the listed finding)
+				pt := actionType("param", "")
+				classes := methodParamClasses()
+				for _, in := range itfNames {
+					if pt == in {
+						classes = paramClasses()
+					}
+				}
+				a.Params = append(a.Params, Param{Name: pg.draw(t, "param", classes, labels), Type: pt})
 			}
 			if rapid.Bool().Draw(t, "hasret") {
 				a.Ret = actionType("ret", "")
